@@ -72,4 +72,222 @@ pub proof fn lemma_scan_prefix_none(b: Seq<u8>, k: int)
     }
 }
 
+
+/// the first group yielded for the operation kind is the group at `first_op`
+pub proof fn lemma_first_op(gs: Seq<crate::attribute::IppAttributeGroup>)
+    ensures
+        0 <= first_op(gs) <= gs.len(),
+        first_op(gs) < gs.len() ==> gs[first_op(gs)].stag() == crate::model::DelimiterTag::OperationAttributes
+            && groups_with(gs, crate::model::DelimiterTag::OperationAttributes).len() > 0
+            && groups_with(gs, crate::model::DelimiterTag::OperationAttributes)[0] == gs[first_op(gs)],
+        first_op(gs) == gs.len() ==> groups_with(gs, crate::model::DelimiterTag::OperationAttributes).len() == 0,
+    decreases gs.len(),
+{
+    if gs.len() > 0 {
+        lemma_first_op(gs.skip(1));
+        if gs[0].stag() != crate::model::DelimiterTag::OperationAttributes {
+            let i = first_op(gs.skip(1));
+            if i < gs.skip(1).len() {
+                assert(gs.skip(1)[i] == gs[i + 1]);
+            }
+        }
+    }
+}
+
+
+/// `keys_enc` only looks at the first `n` keys
+pub proof fn lemma_keys_enc_prefix(m: Map<String, crate::attribute::IppAttribute>, a: Seq<String>, b: Seq<String>, n: nat)
+    requires
+        n <= a.len() <= b.len(),
+        forall|i: int| 0 <= i < a.len() ==> a[i] == b[i],
+    ensures
+        keys_enc(m, a, n) == keys_enc(m, b, n),
+    decreases n,
+{
+    if n > 0 {
+        lemma_keys_enc_prefix(m, a, b, (n - 1) as nat);
+    }
+}
+
+/// appending a key appends that attribute's encoding
+pub proof fn lemma_keys_enc_push(m: Map<String, crate::attribute::IppAttribute>, ks: Seq<String>, k: String)
+    ensures
+        keys_enc(m, ks.push(k), ks.len() + 1) == keys_enc(m, ks, ks.len()) + spec_attr_enc(m[k].sname(), aval(m[k].sval())),
+{
+    lemma_keys_enc_prefix(m, ks, ks.push(k), ks.len());
+}
+
+/// `others_enc` only looks at the first `n` entries
+pub proof fn lemma_others_enc_prefix(gs: Seq<crate::attribute::IppAttributeGroup>, a: Seq<(int, Seq<String>)>, b: Seq<(int, Seq<String>)>, n: nat)
+    requires
+        n <= a.len() <= b.len(),
+        forall|i: int| 0 <= i < a.len() ==> a[i] == b[i],
+    ensures
+        others_enc(gs, a, n) == others_enc(gs, b, n),
+    decreases n,
+{
+    if n > 0 {
+        lemma_others_enc_prefix(gs, a, b, (n - 1) as nat);
+    }
+}
+
+pub proof fn lemma_others_enc_push(gs: Seq<crate::attribute::IppAttributeGroup>, os: Seq<(int, Seq<String>)>, o: (int, Seq<String>))
+    ensures
+        others_enc(gs, os.push(o), os.len() + 1) == others_enc(gs, os, os.len()) + group_enc(gs[o.0], o.1),
+{
+    lemma_others_enc_prefix(gs, os, os.push(o), os.len());
+}
+
+
+// ---------------------------------------------------------------- attribute-section encoder (C03 / C09)
+
+/// the keys yielded by `HashMap::iter` enumerate the key set without repetition
+pub broadcast proof fn lemma_iter_keys(m: Map<String, crate::attribute::IppAttribute>, r: Seq<(&String, &crate::attribute::IppAttribute)>)
+    requires #[trigger] iter_facts(m, r),
+    ensures
+        iter_keys(r).len() == r.len(),
+        iter_keys(r).no_duplicates(),
+        iter_keys(r).to_set() == m.dom(),
+        forall|i: int| 0 <= i < r.len() ==> (#[trigger] iter_keys(r)[i]) == *r[i].0 && m[iter_keys(r)[i]] == *r[i].1,
+{
+    let ks = iter_keys(r);
+    assert forall|i: int, j: int| 0 <= i < j < ks.len() implies ks[i] != ks[j] by {
+        if ks[i] == ks[j] {
+            assert(*r[i].0 == *r[j].0);
+            assert(*r[i].1 == m[*r[i].0]);
+            assert(*r[j].1 == m[*r[j].0]);
+            assert(r[i] == r[j]);
+        }
+    }
+    assert forall|k: String| m.contains_key(k) implies ks.to_set().contains(k) by {
+        let i = choose|i: int| 0 <= i < r.len() && *(#[trigger] r[i]).0 == k;
+        assert(ks[i] == k);
+    }
+    assert forall|k: String| ks.to_set().contains(k) implies m.contains_key(k) by {
+        let i = choose|i: int| 0 <= i < ks.len() && ks[i] == k;
+        assert(m.contains_key(*r[i].0));
+    }
+    assert(ks.to_set() =~= m.dom());
+}
+
+/// one step of the first encoder loop: the `q`-th listed name is looked up; `hit` = the group has it
+pub proof fn lemma_loop1_step(m: Map<String, crate::attribute::IppAttribute>, hs: Seq<&'static str>, ops: Seq<String>,
+                              qs: Seq<int>, q: int, hit: bool)
+    requires
+        loop1_inv(m, hs, ops, qs, q), 0 <= q < hs.len(),
+        hit == m.contains_key(str_of(hs[q]@)),
+    ensures
+        loop1_inv(m, hs, if hit { ops.push(str_of(hs[q]@)) } else { ops }, if hit { qs.push(q) } else { qs }, q + 1),
+{
+    let ops2 = if hit { ops.push(str_of(hs[q]@)) } else { ops };
+    let qs2 = if hit { qs.push(q) } else { qs };
+    assert forall|qq: int| 0 <= qq < q + 1 && qq < hs.len() && m.contains_key(str_of((#[trigger] hs[qq])@)) implies
+        exists|j: int| 0 <= j < ops2.len() && qs2[j] == qq by {
+        if qq == q {
+            assert(qs2[ops2.len() - 1] == q);
+        } else {
+            let j = choose|j: int| 0 <= j < ops.len() && qs[j] == qq;
+            assert(qs2[j] == qq);
+        }
+    }
+}
+
+/// one step of the second encoder loop: the `p`-th yielded value is emitted iff its name is not a listed one
+pub proof fn lemma_loop2_step(m: Map<String, crate::attribute::IppAttribute>, ops1: Seq<String>, vks: Seq<String>, ops: Seq<String>,
+                              ps: Seq<int>, p: int, emit: bool)
+    requires
+        loop2_inv(m, ops1, vks, ops, ps, p), 0 <= p < vks.len(),
+        emit == (target_rank(m[vks[p]].sname()) == 4),
+    ensures
+        loop2_inv(m, ops1, vks, if emit { ops.push(vks[p]) } else { ops }, if emit { ps.push(p) } else { ps }, p + 1),
+{
+    let ops2 = if emit { ops.push(vks[p]) } else { ops };
+    let ps2 = if emit { ps.push(p) } else { ps };
+    assert forall|pp: int| 0 <= pp < p + 1 && pp < vks.len() && target_rank(m[#[trigger] vks[pp]].sname()) == 4 implies
+        exists|j: int| 0 <= j < ps2.len() && ps2[j] == pp by {
+        if pp == p {
+            assert(ps2[ps2.len() - 1] == p);
+        } else {
+            let j = choose|j: int| 0 <= j < ps.len() && ps[j] == pp;
+            assert(ps2[j] == pp);
+        }
+    }
+}
+
+/// after both loops the emitted keys are every key of the group exactly once, the RFC-ranked ones first in order
+pub broadcast proof fn lemma_op_group_done(m: Map<String, crate::attribute::IppAttribute>, hs: Seq<&'static str>, ops1: Seq<String>,
+                                 qs: Seq<int>, vks: Seq<String>, ops: Seq<String>, ps: Seq<int>)
+    requires
+        attrs_wf(m), hdrs_ok(hs),
+        #[trigger] loop1_inv(m, hs, ops1, qs, hs.len() as int),
+        #[trigger] loop2_inv(m, ops1, vks, ops, ps, vks.len() as int),
+        vks.no_duplicates(), vks.to_set() == m.dom(),
+    ensures
+        key_perm(ops, m), ranks_sorted(m, ops),
+{
+    let n1 = ops1.len() as int;
+    // names of emitted keys
+    assert forall|j: int| 0 <= j < ops.len() implies m.contains_key(#[trigger] ops[j])
+        && (j < n1 ==> ops[j] == ops1[j] && m[ops[j]].sname() == hs[qs[j]]@ && target_rank(m[ops[j]].sname()) < 4)
+        && (j >= n1 ==> ops[j] == vks[ps[j - n1]] && target_rank(m[ops[j]].sname()) == 4) by {
+        if j < n1 {
+            assert(ops[j] == ops1[j]);
+            assert(ops1[j] == str_of(hs[qs[j]]@));
+            axiom_str_of(hs[qs[j]]@);
+        } else {
+            let k = j - n1;
+            assert(ops[n1 + k] == vks[ps[k]]);
+            assert(vks.to_set().contains(vks[ps[k]]));
+        }
+    }
+    // ranks
+    assert forall|i: int, j: int| 0 <= i < j < ops.len() implies
+        target_rank(m[#[trigger] ops[i]].sname()) <= target_rank(m[#[trigger] ops[j]].sname()) by {
+        if j < n1 {
+            assert(qs[i] < qs[j]);
+        }
+    }
+    // no duplicates
+    assert forall|i: int, j: int| 0 <= i < j < ops.len() implies ops[i] != ops[j] by {
+        if j < n1 {
+            assert(qs[i] < qs[j]);
+            assert(hs[qs[i]]@ != hs[qs[j]]@);
+            axiom_str_of(hs[qs[i]]@);
+            axiom_str_of(hs[qs[j]]@);
+        } else if i >= n1 {
+            assert(ps[i - n1] < ps[j - n1]);
+        }
+    }
+    // every key is emitted
+    assert forall|k: String| m.contains_key(k) implies ops.to_set().contains(k) by {
+        if target_rank(m[k].sname()) < 4 {
+            let a = choose|a: int| 0 <= a < hs.len() && (#[trigger] hs[a])@ == m[k].sname();
+            lemma_str_of_view(k);
+            assert(str_of(hs[a]@) == k);
+            let j = choose|j: int| 0 <= j < ops1.len() && qs[j] == a;
+            assert(ops[j] == ops1[j]);
+            assert(ops[j] == k);
+        } else {
+            assert(vks.to_set().contains(k));
+            let p = choose|p: int| 0 <= p < vks.len() && vks[p] == k;
+            let j = choose|j: int| 0 <= j < ps.len() && ps[j] == p;
+            assert(ops[n1 + j] == k);
+        }
+    }
+    assert(ops.to_set() =~= m.dom());
+}
+
+pub broadcast group group_ipp_attrs {
+    lemma_iter_keys,
+    lemma_op_group_done,
+}
+
+/// a non-operation group: every yielded value emitted, in the iteration's key order
+pub proof fn lemma_keys_enc_all(m: Map<String, crate::attribute::IppAttribute>, vks: Seq<String>, n: nat)
+    requires n <= vks.len(),
+    ensures keys_enc(m, vks.take(n as int), n) == keys_enc(m, vks, n),
+{
+    lemma_keys_enc_prefix(m, vks.take(n as int), vks, n);
+}
+
 } // verus!
